@@ -13,4 +13,8 @@ CLAIMS = {
         text="Generated crowds of concurrent Invoke callers (arrival offsets around the wait-interval / max-duration timers, shards, MaxSize, outcome plan ok/error/panic/short/long/slow per invocation, per-caller and shared cancellation, optional concurrency limiter, drawn sleeps at verif yield sites inside Invoke). The batch function records every invocation; oracle checks own-result correspondence, at-most-once / exactly-once hand-over, MaxSize, shard purity, error attribution and that every caller returns (10 s watchdog vs <=10 ms timers).",
         ref="DESIGN.md 4/C05", technique="property-based testing (rapid) of concurrent callers against a recording batch function; invariants over the invocation log",
         note="which callers share a batch is timing dependent and not asserted; schedules limited to arrival offsets, yield-site sleeps and the OS scheduler (+ -race in thorough)"),
+    "C01": dict(
+        text="Generated schema specs (reflect.MakeFunc field funcs over a pool of Go struct/union/enum types, every receiver/args/error signature form) x generated valid queries (merged aliases with different sub-selections, repeated and nested named fragments, unions incl. several fragments per member, fragments on the union, uncovered members, nil objects, empty lists, keyed objects, variables with defaults). Each case runs under 3-6 combinations of per-field execution mode (plain/Expensive/batch/batch-with-fallback/NumParallelInvocations=k), work scheduler (thunder's goroutine scheduler, FIFO, LIFO, seeded-random, pools), fallback flag, inside/outside a reactive rerunner with batching, resolver yields; every result must equal an independent sequential reference interpreter.",
+        ref="DESIGN.md 4/C01 and appendix A", technique="property-based differential + metamorphic testing (rapid): thunder executor under generated modes/schedulers vs reference interpreter",
+        note="the reference interpreter (harness/world/ref.go) and the pure data function are trusted; same response key implies same field+args by construction; interleavings limited to the provided schedulers, yields and -race shards"),
 }
